@@ -440,7 +440,6 @@ def check_step(info, pre, post, S, s_cur, burn_in, lat, phase, mclass, acc=None)
         out.append((f"{site}|{kind}|{feature}", msg))
 
     memoryless = phase != PHASES[2]
-    n = lat["tau"].shape[0]
 
     # ---- the statistics of the current state are what their names say
     for v in info["pop"] + info["ind"]:
